@@ -159,3 +159,21 @@ pub fn gen_base(rng: &mut Rng, cfg: &BaseCfg) -> (J, StdTable, Sel, Shape) {
     let case = json!({"tables": format!("{} {}", t.spec.text(), u.text()), "stmt": sel.text(Paren::Full), "lines": lines, "joined": joined, "shape": format!("{:?}", shape), "big_ints": big_ints || big_rows, "exact_ints": mid_ints});
     (case, t, sel, shape)
 }
+
+/// one or two groups of `nmin..=nmax` lines each and PERCENTILE at fractions off the usual quarter steps: what an implementation
+/// does differently beyond some number of values per group (another selection algorithm, another sort) shows here
+pub fn gen_percentile_case(rng: &mut Rng, nmin: usize, nmax: usize, zeros: bool) -> J {
+    let js = rng.chance(2, 3);
+    let t = std_table(rng, "t", js, true);
+    let mut dc = DataCfg::random(rng, t.schema.cols.len(), false);
+    dc.keys = 1 + rng.below(2);
+    dc.zeros = zeros;
+    for r in dc.null_rate.iter_mut() { if *r > 300 { *r = 100; } }
+    let n = (nmin + rng.below(nmax - nmin + 1)) * dc.keys;
+    let lines = std_lines(rng, &t, n, &dc);
+    const PS: &[f64] = &[0.1, 0.3, 0.333, 0.5, 0.6, 0.75, 0.9, 0.95, 0.99];
+    let mut sel = Sel { from: "t".into(), group_by: Some(vec![col("k")]), ..Default::default() };
+    sel.projs = vec![(col("k"), None), (E::Agg("percentile".into(), false, vec![col("r"), E::Real(*rng.pick(PS))]), None), (E::Agg("percentile".into(), false, vec![col("i"), E::Real(*rng.pick(PS))]), Some("pi".into())), (E::Agg("count".into(), false, vec![col("r")]), None), (E::Agg("percentile".into(), false, vec![col("g"), E::Real(*rng.pick(PS))]), Some("pg".into()))];
+    json!({"tables": t.spec.text(), "stmt": sel.text(Paren::Full), "lines": lines, "joined": J::Null, "shape": "Aggregate", "big_ints": false, "exact_ints": false})
+}
+
